@@ -8,6 +8,12 @@ func init() {
 	property("C04", []string{"M3", "M4", "M5", "M6", "M7"},
 		"Decided for all schedules at once (the static half the property's own quantifier names): no closure that outlives the call that created it (renderer, evaluator, compiler, filter closures) writes a variable it captured or anything reached through one (M3); no package-level variable is written after initialisation (M4); no store or map update goes into an object shared by all renders - engine, template, render nodes, compiled expressions, configuration maps, values captured at compile time - except while that object is being built or in a configuration-phase function (M5); lazily initialised fields sit behind sync.Once consistently (M6); no configuration mutator is reachable from a run-phase entry point (M7). Together: every location written by a run-phase call is allocated by that call. NOT decided: actual interleavings under the race detector, races inside caller code (Drops, custom tags/filters, the io.Writer), ParseTemplateAndCache concurrent with include (classified configuration), mutation through library calls the rules do not model, and the 'equals sequential' clause beyond sharing no state.",
 		append([]string{"tables/api_phases.json lists the configuration-phase API"}, baseAssumptions...)...)
+	property("C02", []string{"D1", "D2", "M3", "M4", "M5"},
+		"Decided for all inputs at once: Go's randomised map iteration order is never observable - every range over a map and every reflect MapKeys() walk either only accumulates commutatively (map inserts) or has its keys sorted before any other use (D1); no clock, random, environment, process, stack, goroutine or %p source is consulted outside the date \"now\" exception, package initialisers and the re-raise path of the recover closure (D2); nothing survives from one render to the next - no compile-time closure writes what it captured (M3), no package-level variable is written after initialisation (M4), no shared object is written at run phase (M5). NOT decided: that fmt prints no address for values containing pointers, the time zone, equality of error texts when several elements of a map fail conversion, and that all entry points are wrappers of one render function (read, not checked here).",
+		baseAssumptions...)
+	property("C03", []string{"M1", "M2", "M3", "M4", "M5"},
+		"Decided for all histories at once by an interprocedural distance analysis (aliases of the caller's storage vs. copies allocated during the call, through interface methods, renderer closures, reflect wrappers and sort.Interface implementations): no standard filter stores through, appends to, sorts, copies into or otherwise writes a slice/map/pointer/interface argument or anything nested in it (M1); nothing reachable from Render/FRender/RenderString/ParseAndRender* writes the bindings map passed in or any object reached from it - only the per-render copy made by newNodeContext is written (M2); the template and engine are not written by rendering: no compile-time closure writes a capture (M3), no global is written (M4), no store goes into a render node, compiled expression or configuration map at run phase (M5), so assign/capture variables, loop variables, forloop and cycle state live only in per-render allocations. NOT decided: mutation performed by caller-supplied code (ToLiquid, struct methods, custom filters) or inside reflect-driven library code (json.Marshal, fmt), which is trusted read-only.",
+		baseAssumptions...)
 	property("C20", []string{"E4", "E5", "P2", "P1"},
 		"Decided for every fault index at once: the error result of every call that can write output (anything taking or invoked on an io.Writer / the trim writer, node render methods, renderer closures) flows to a return of the enclosing function and never into a panic or the void (E4); every function and interface method that is handed a writer and uses it has an error result (E5); no error location is ever taken from a node kind whose SourceLocation panics (P2); every explicit panic reachable at run phase has a type its recover boundary converts (P1, shared with C01). NOT decided: that the bytes accepted before the failure are a prefix of the fault-free output (byte-level behaviour of the trim writer), and that the returned error is located at the right line.",
 		baseAssumptions...)
